@@ -12,6 +12,7 @@ Import ListNotations.
 Inductive outcome : Type :=
 | Done (s : list value)
 | Failed (v : value)
+| RtError      (* a run-time failure other than FAILWITH that the reference prescribes: shift by more than 256 *)
 | OutOfFuel
 | Stuck.
 
@@ -111,10 +112,41 @@ Definition ref_simple (i : instr) (s : list value) : outcome :=
                  end
   | I_EQ | I_NEQ | I_LT | I_GT | I_LE | I_GE =>
       match s with VInt a :: r => Done (VBool (zcmp i a) :: r) | _ => Stuck end
-  | I_AND => match s with VBool a :: VBool b :: r => Done (VBool (a && b) :: r) | _ => Stuck end
-  | I_OR => match s with VBool a :: VBool b :: r => Done (VBool (a || b) :: r) | _ => Stuck end
-  | I_XOR => match s with VBool a :: VBool b :: r => Done (VBool (xorb a b) :: r) | _ => Stuck end
-  | I_NOT => match s with VBool a :: r => Done (VBool (negb a) :: r) | _ => Stuck end
+  | I_AND => match s with
+             | VBool a :: VBool b :: r => Done (VBool (a && b) :: r)
+             | VInt a :: VInt b :: r => Done (VInt (Z.land a b) :: r)
+             | _ => Stuck
+             end
+  | I_OR => match s with
+            | VBool a :: VBool b :: r => Done (VBool (a || b) :: r)
+            | VInt a :: VInt b :: r => Done (VInt (Z.lor a b) :: r)
+            | _ => Stuck
+            end
+  | I_XOR => match s with
+             | VBool a :: VBool b :: r => Done (VBool (xorb a b) :: r)
+             | VInt a :: VInt b :: r => Done (VInt (Z.lxor a b) :: r)
+             | _ => Stuck
+             end
+  | I_NOT => match s with
+             | VBool a :: r => Done (VBool (negb a) :: r)
+             | VInt a :: r => Done (VInt (- a - 1) :: r)      (* two's complement *)
+             | _ => Stuck
+             end
+  | I_LSL => match s with
+             | VInt a :: VInt b :: r => if (b <=? 256)%Z then Done (VInt (a * 2 ^ b) :: r) else RtError
+             | _ => Stuck
+             end
+  | I_LSR => match s with
+             | VInt a :: VInt b :: r => if (b <=? 256)%Z then Done (VInt (a / 2 ^ b) :: r) else RtError
+             | _ => Stuck
+             end
+  | I_SLICE => match s with
+               | VInt o :: VInt l :: VStr x :: r =>
+                   Done ((if (o <? Z.of_nat (length x))%Z && (o + l <=? Z.of_nat (length x))%Z
+                          then VSome (VStr (firstn (Z.to_nat l) (skipn (Z.to_nat o) x)))
+                          else VNone) :: r)
+               | _ => Stuck
+               end
   | I_CONCAT => match s with
                 | VStr a :: VStr b :: r => Done (VStr (a ++ b) :: r)
                 | VList l :: r => match concat_strs l with
@@ -228,6 +260,7 @@ Definition outcome_eqb (a b : outcome) : bool :=
   match a, b with
   | Done x, Done y => list_eqb value_eqb x y
   | Failed x, Failed y => value_eqb x y
+  | RtError, RtError => true
   | OutOfFuel, OutOfFuel => true
   | Stuck, Stuck => true
   | _, _ => false
